@@ -123,12 +123,15 @@ def fcTarget (m : Mon) (sid : Nat) : Nat := if m.transport then 0 else sid
 def endedStatus (m : Mon) (s : StreamSt) : SStatus :=
   if m.transport && !s.lingers then .closed else .halfRemote
 
-/-- The frame is not delivered: it is charged to (and refunded on) the connection window only;
-on the Transport a stream that was still registered is aborted (protocol error). -/
+/-- The frame is not delivered: it is charged to (and refunded on) the connection window only,
+whether or not the endpoint's own RST_STREAM for that stream has reached the wire yet.
+The endpoint resets / aborts a stream that was still registered (server: STREAM_CLOSED or
+PROTOCOL_ERROR, possibly still queued behind a blocked writer; Transport: protocol error),
+so the stream counts as closed from here on. -/
 def connOnlyAct (m : Mon) (sid : Nat) (L : Int) : ActOut :=
   if L > m.conn then ⟨m, some (fcTarget m sid)⟩
   else
-    let ss := if m.transport then updStream m.streams sid (fun s => { s with status := .closed }) else m.streams
+    let ss := updStream m.streams sid (fun s => { s with status := .closed })
     ⟨{ m with conn := m.conn - L, sumData := m.sumData + L, streams := ss }, none⟩
 
 /-- The frame is within both windows and is delivered to the stream's body. -/
@@ -262,7 +265,7 @@ def hasFC (sid : Nat) (obs : List Obs) : Bool :=
 has no effect of its own. -/
 def effAct (a : Act) (obs : List Obs) : Act :=
   match a with
-  | .bclose _ | .hexit _ | .req _ _ | .rhdr _ _ => if obs.contains .skipped then .read 0 else a
+  | .bclose _ | .hexit _ | .req _ _ | .rhdr _ _ | .shutdown _ => if obs.contains .skipped then .read 0 else a
   | _ => a
 
 /-- The `reset` line: a new connection; the initial WINDOW_UPDATE must bring the peer's view
@@ -288,7 +291,7 @@ def liveLine (m : Mon) (act : Act) (obs : List Obs) : Except String Mon :=
   match a.expectFC with
   | some sid =>
     if !hasFC sid obs then .error "excess-data-not-refused"
-    else obsFold (some sid) a.m obs
+    else obsFold (some sid) (setStatus a.m sid .closed) obs   -- the refused stream is reset
   | none =>
     match obsFold none a.m obs with
     | .error e => .error e
